@@ -84,6 +84,7 @@ def run(tier):
                                    'polling, overlapping polls, sends'))
     core.conform(ck, plans)
     core.l2_conform(ck, seed, 300 if th else 60)
+    core.l2_upgrade(ck, th, seed)
     ck.cov['rule'] = ('case = one environment script (opens, polls, posts, frames, sends, clock '
                       'advances) executed on one server implementation; distinct by the sequence of '
                       'recorded actions with arguments; non-trivial = every script (each contains at '
